@@ -206,6 +206,19 @@ def returns_param_unchanged(f, pname):
             isinstance(r.value, ast.Name) and r.value.id == pname]
 
 
+def _handler_params(t):
+    """(class parameter, value parameter) of a handler ``(self, cls, value)``;
+    a @staticmethod handler has no ``self``."""
+    ps = t.params()
+    static = any(isinstance(d, ast.Name) and d.id == 'staticmethod'
+                 for d in getattr(t.node, 'decorator_list', []))
+    if static:
+        ps = [None] + list(ps)
+    if len(ps) < 3:
+        return None, None
+    return ps[1], ps[2]
+
+
 def rule_r2(prog, res):
     res.rule('R2', 'input-side pass-through handlers test the kind of the '
              'value')
@@ -225,10 +238,9 @@ def rule_r2(prog, res):
                 t = e.target
                 if not isinstance(t, FuncInfo):
                     continue
-                ps = t.params()
-                if len(ps) < 3:
+                _cp, vparam = _handler_params(t)
+                if vparam is None:
                     continue
-                vparam = ps[2]
                 rets = returns_param_unchanged(t, vparam)
                 if not rets:
                     continue
@@ -968,10 +980,9 @@ def rule_r10(prog, res):
     from ..flow import entails
     n = nint = 0
     for c, key, t in _number_handlers(prog):
-        ps = t.params()
-        if len(ps) < 3:
+        cparam, vparam = _handler_params(t)
+        if vparam is None:
             continue
-        vparam = ps[2]
         for r in returns_param_unchanged(t, vparam):
             n += 1
             where = '%s:%d' % (t.module.relpath, r.lineno)
@@ -1014,7 +1025,7 @@ def rule_r10(prog, res):
             # the unchanged return of an Integer member excludes floats
             fl = 'isinstance(%s, float)' % vparam
             okf = entails(g, 'not (%s and issubclass(%s, Integer))' % (
-                fl, ps[1])) or entails(g, 'not %s' % fl) or (
+                fl, cparam)) or entails(g, 'not %s' % fl) or (
                     'float' not in white[1])
             res.ob('R10', where, '%s[Integer] -> %s: the unchanged value is '
                    'not a float' % (c.name, t.qualname),
